@@ -4,10 +4,23 @@
 From LE Require Import Base GenGuards Consts.
 Open Scope Z_scope.
 
+(* the regenerated definitions are small cascades of comparisons; their shape (a clamp, an early return, a helper executed in
+   place) depends on how the source is written, what they compute does not: every test is decided, the rest is arithmetic *)
+Ltac split_ifs :=
+  cbv zeta;
+  repeat match goal with
+         | |- context [if (?a <? ?b)%Z then _ else _] => destruct (Z.ltb_spec a b)
+         | |- context [if (?a <=? ?b)%Z then _ else _] => destruct (Z.leb_spec a b)
+         | |- context [if (?a =? ?b)%Z then _ else _] => destruct (Z.eqb_spec a b)
+         | |- context [if negb (?a =? ?b)%Z then _ else _] => destruct (Z.eqb_spec a b); cbn [negb]
+         | |- context [if negb (?a <? ?b)%Z then _ else _] => destruct (Z.ltb_spec a b); cbn [negb]
+         | |- context [if negb (?a <=? ?b)%Z then _ else _] => destruct (Z.leb_spec a b); cbn [negb]
+         | |- context [if ?c then _ else _] => destruct c eqn:?
+         end.
+
 Lemma hb_update_timeout_agree H : gen_hb_update_timeout H = hb_update_timeout H.
 Proof.
-  unfold gen_hb_update_timeout, hb_update_timeout, sec. cbv zeta.
-  destruct (Z.ltb_spec (Z.quot H 2) (1 * 1000000000)); lia.
+  unfold gen_hb_update_timeout, hb_update_timeout, sec. split_ifs; lia.
 Qed.
 
 Lemma hb_max_failures_agree : gen_hb_max_failures = hb_max_failures.
@@ -18,12 +31,11 @@ Proof. unfold gen_hb_trips. rewrite Z.geb_leb. reflexivity. Qed.
 
 Lemma default_grace_agree H : gen_default_grace H = default_grace H.
 Proof.
-  unfold gen_default_grace, default_grace, sec. cbv zeta.
-  destruct (Z.ltb_spec (3 * H) (5 * 1000000000)); lia.
+  unfold gen_default_grace, default_grace, sec. split_ifs; lia.
 Qed.
 
 Lemma health_threshold_agree m : gen_health_threshold m = health_threshold m.
-Proof. reflexivity. Qed.
+Proof. unfold gen_health_threshold, health_threshold. split_ifs; lia. Qed.
 
 Lemma health_trips_spec count thr : gen_health_trips count thr = (thr <=? count).
 Proof. unfold gen_health_trips. rewrite Z.geb_leb. reflexivity. Qed.
@@ -73,7 +85,7 @@ Proof.
   intros Hp Hl. unfold gen_val_read_timeout. cbv zeta.
   pose proof (Z.quot_div_nonneg H 2 ltac:(lia) ltac:(lia)) as Q. pose proof (Z.div_mod H 2 ltac:(lia)) as D.
   pose proof (Z.mod_pos_bound H 2 ltac:(lia)) as M.
-  destruct (H ÷ 2 <? 2 * 1000000000) eqn:E; [apply Z.ltb_lt in E|]; lia.
+  split_ifs; lia.
 Qed.
 
 Lemma hb_update_tolerates_fast_store H lat : 0 < H -> 2 * lat + 1 < H -> lat < gen_hb_update_timeout H.
@@ -81,5 +93,5 @@ Proof.
   intros Hp Hl. unfold gen_hb_update_timeout. cbv zeta.
   pose proof (Z.quot_div_nonneg H 2 ltac:(lia) ltac:(lia)) as Q. pose proof (Z.div_mod H 2 ltac:(lia)) as D.
   pose proof (Z.mod_pos_bound H 2 ltac:(lia)) as M.
-  destruct (H ÷ 2 <? 1 * 1000000000) eqn:E; [apply Z.ltb_lt in E|]; lia.
+  split_ifs; lia.
 Qed.
